@@ -125,6 +125,20 @@ CLAIMS = {
                 'BusMatchRule.arg_lens).',
         'design': 'DESIGN.md section 3, C07',
     },
+    'C12': {
+        'technique': 'static analysis: acquire/release typestate of the header-padding reservation on all exits, '
+                     'must-pass-through of cache invalidation after byte-moving calls, who-writes scans of header '
+                     'bytes/padding, locked-precondition dominance in public setters, irrevocable-last typestate '
+                     'in the in-place replacement primitive',
+        'text': 'Decides that the three header editors (and header creation) give back the reserved padding on '
+                'every exit incl. OOM, that successful byte-moving edits invalidate the field cache before returning '
+                'and before the strip loop reads on, that only the header module mutates header bytes/padding and '
+                'every public dbus_message_set_* tests !locked first, and that in-place replacement applies array-'
+                'length fix-ups only after its last fallible step and restores lengths on failure.',
+        'note': NOT_DECIDED_COMMON + 'Not decided: byte-level result of realignment for every layout / byte order; '
+                'that the edited field reads back as set; value preservation of the other fields.',
+        'design': 'DESIGN.md section 3, C12',
+    },
 }
 
 NOT_APPLICABLE = {
